@@ -423,6 +423,16 @@ static INLINE int get_relative_dist(const OrderHintInfo *oh, int a, int b) {
     diff           = (diff & (m - 1)) - (diff & m);
     return diff;
 }
+#ifdef SVT_AV1_VERIF
+/* verification hook: exported wrapper of this file's static get_relative_dist */
+int svt_verif_reldist_amvp(int bits, int a, int b) {
+    OrderHintInfo oh;
+    memset(&oh, 0, sizeof(oh));
+    oh.enable_order_hint = 1;
+    oh.order_hint_bits   = bits;
+    return get_relative_dist(&oh, a, b);
+}
+#endif
 static int add_tpl_ref_mv(const Av1Common *cm, PictureControlSet *pcs_ptr, const MacroBlockD *xd,
                           int mi_row, int mi_col, MvReferenceFrame ref_frame, int blk_row,
                           int blk_col, IntMv *gm_mv_candidates, uint8_t *const refmv_count,
